@@ -146,6 +146,9 @@ def ixDbg (args : List String) (impl : String) : String × String :=
       let pred := if impl.startsWith "PANIC" then "false:panic"
         else if fieldD f "same" != "1" then "false:debugger-changed-the-execution"
         else if !lifecycleOk (hasFlag flags fBip16 && !hasFlag flags fAfterGenesis && Script.isP2SH lock) (fieldD f "ev").toList then "false:callback-order-outside-lifecycle"
+        -- each step snapshot is the state the instruction leaves behind (stacks, conditional stack, position)
+        else if impl.takeWhile (· != ' ') == model.takeWhile (· != ' ') &&
+            fieldD f "t" != "|".intercalate (tr.reverse.map showSnap) then "false:snapshot-is-not-the-state-after-the-instruction"
         else "true"
       (model, pred)
     | _, _, _ => ("bad-op", "n/a")
